@@ -3,11 +3,14 @@ Tie: the extracted model vs the real helpers on exhaustive small strings + rando
 for four conventions (case x win_paths) plus a no-alt-sep one; the laws of the property are
 also evaluated directly on the real helpers (that is the search for a failing input)."""
 import itertools
+import json
+import os
 import types
 
-from .. import envfix, framework as fw
+from .. import build, envfix, framework as fw, translator
 
 ALPHABET = ["/", "\\", "a", "A", "b", ".", " ", ":", "\u00e9", "\u00c9"]
+CORE = ["/", "\\", "a", "A", ":", "."]       # thorough tier: longer pairs / triples over this sub-alphabet
 EXTRA = ["\u4e2d", "\u00df", "z", "Z", "-", "_", "c", "C", "1"]   # used by the long random stream
 
 
@@ -83,73 +86,148 @@ def translate_impl(provs, roots, side, path):
 
 
 # ------------------------------------------------------------------ laws on the real code
+# Each law below mirrors one theorem of coq/theories/PropC13.v (same name after "C13_"), with the same
+# hypotheses as guards.  They are evaluated on the real helpers: that is the search for a failing input.
+LAW_HITS = {}     # law -> number of inputs on which its hypotheses held (so the conclusion was evaluated)
+
+
+def hit(law):
+    LAW_HITS[law] = LAW_HITS.get(law, 0) + 1
+
+
+def nps_of(p, s):
+    return p.normalize_path_separators(s)
+
+
+def abs_path(p, s):
+    """PathLaws.abs_path: the separator-normalised string starts with the separator"""
+    x = nps_of(p, s)
+    return bool(x) and x[0] == p.sep
+
+
+def dl(p, j):
+    """PathLaws.dl: the drive-letter exception of join"""
+    return bool(p.win_paths) and j[1:2] == ":"
+
+
+def pc(p, s):
+    """PathLaws.pc: components of a path"""
+    x = s.replace(p.alt_sep, p.sep) if p.alt_sep else s
+    return [c for c in x.split(p.sep) if c]
+
+
+def per_char_lower(s):
+    """the theorems model str.lower() as a per-character fold (fold_ok); True when that reading is exact for s"""
+    return len(s.lower()) == len(s) and all(a.lower() == b for a, b in zip(s, s.lower()))
+
+
+def lowk(p, l):
+    """PathLaws.lowk"""
+    return l if p.case_sensitive else [c.lower() for c in l]
+
+
 def laws_unary(p, s, twin=None):
     """-> list of (law, detail) violated by the real helpers on string s."""
     bad = []
     try:
+        x = nps_of(p, s)
+        hit("nps_idem")
+        if nps_of(p, x) != x:
+            bad.append(("nps_idem", dict(s=s)))
         for disp in (False, True):
             n = p.normalize_path(s, disp)
+            hit("normalize_idem"), hit("match_normalize"), hit("split_join"), hit("match_refl")
             if p.normalize_path(n, disp) != n:
                 bad.append(("normalize_idem", dict(s=s, disp=disp, n=n, nn=p.normalize_path(n, disp))))
-        x = p.normalize_path_separators(s)
-        if p.normalize_path_separators(x) != x:
-            bad.append(("nps_idem", dict(s=s)))
-        d, b = p.split(s)
-        if s and not p.paths_match(p.join(d, b), s):
-            bad.append(("split_join", dict(s=s, d=d, b=b, j=p.join(d, b))))
-        if not p.paths_match(s, s):
-            bad.append(("match_refl", dict(s=s)))
-        if not p.case_sensitive:
-            if not p.paths_match(s, s.lower()) and len(s.lower()) == len(s):
+            if not p.paths_match(n, s, disp):
+                bad.append(("match_normalize", dict(s=s, disp=disp, n=n)))
+            d, b = p.split(s)
+            if not p.paths_match(p.join(d, b), s, disp):
+                bad.append(("split_join", dict(s=s, d=d, b=b, j=p.join(d, b), disp=disp)))
+            if not p.paths_match(s, s, disp):
+                bad.append(("match_refl", dict(s=s, disp=disp)))
+        if p.case_sensitive:
+            # match_case_sensitive: equality is equality of components
+            pass
+        elif per_char_lower(s):
+            hit("match_case"), hit("display_keeps_leaf"), hit("display_same_class")
+            if not p.paths_match(s, s.lower()):
                 bad.append(("match_case", dict(s=s)))
-            # display mode keeps the leaf's case (compare with the case-sensitive twin)
-            if twin is not None:
-                nd = p.normalize_path(s, True)
-                if p.basename(nd) != twin.basename(twin.normalize_path(s)):
-                    bad.append(("display_keeps_leaf", dict(s=s, nd=nd)))
-                if p.normalize_path(nd) != p.normalize_path(s):
-                    bad.append(("display_same_class", dict(s=s, nd=nd)))
+            nd = p.normalize_path(s, True)
+            # display mode keeps the leaf's case (compare with the case-sensitive twin) ...
+            if twin is not None and p.basename(nd) != twin.basename(twin.normalize_path(s)):
+                bad.append(("display_keeps_leaf", dict(s=s, nd=nd)))
+            # ... and folds to the plain normal form
+            if nd.lower() != p.normalize_path(s) or p.normalize_path(nd) != p.normalize_path(s):
+                bad.append(("display_same_class", dict(s=s, nd=nd)))
     except Exception as e:  # a helper that raises breaks "laws hold for all paths"
         bad.append(("total", dict(s=s, exc=repr(e))))
     return bad
 
 
-def abs_path(p, s):
-    x = p.normalize_path_separators(s)
-    return bool(x) and x[0] == p.sep
-
-
 def laws_binary(p, f, r):
     bad = []
     try:
-        m1 = p.paths_match(f, r)
-        if m1 != p.paths_match(r, f):
-            bad.append(("match_sym", dict(a=f, b=r)))
-        if m1 != (p.normalize_path(f) == p.normalize_path(r)):
-            bad.append(("match_iff_norm", dict(a=f, b=r)))
-        # folder joined with a relative part is inside the folder, with that relative part
-        rel = r.replace(p.alt_sep, p.sep).strip(p.sep) if p.alt_sep else r.strip(p.sep)
-        if abs_path(p, f) and rel and not (p.win_paths and len(rel) > 1 and False):
+        m = {}
+        for disp in (False, True):
+            m1 = m[disp] = p.paths_match(f, r, disp)
+            hit("match_sym"), hit("match_iff_norm")
+            if m1 != p.paths_match(r, f, disp):
+                bad.append(("match_sym", dict(a=f, b=r, disp=disp)))
+            if m1 != (p.normalize_path(f, disp) == p.normalize_path(r, disp)):
+                bad.append(("match_iff_norm", dict(a=f, b=r, disp=disp)))
+        if m[True]:
+            hit("match_display_plain")
+            if not m[False]:
+                bad.append(("match_display_plain", dict(a=f, b=r)))
+        if p.case_sensitive:
+            hit("match_case_sensitive")
+        elif per_char_lower(f) and per_char_lower(r):
+            hit("match_iff_components")
+        if p.case_sensitive and m[False] != (pc(p, f) == pc(p, r)):
+            bad.append(("match_case_sensitive", dict(a=f, b=r)))
+        if not p.case_sensitive and per_char_lower(f) and per_char_lower(r) and \
+                m[False] != (lowk(p, pc(p, f)) == lowk(p, pc(p, r))):
+            bad.append(("match_iff_components", dict(a=f, b=r)))
+        # join_inside / join_inside_exact: a folder joined with a relative part is inside the folder,
+        # with that relative part.  Hypotheses: abs_path f, strip(nps r) non-blank, not the drive-letter form.
+        rel = nps_of(p, r).strip(p.sep)
+        if abs_path(p, f) and rel:
             j = p.join(f, r)
-            got = p.is_subpath(f, j)
-            if p.win_paths and j[1:2] == ":":
-                pass        # drive-letter form "x:..." is left without a leading separator by design
-            elif not got or not p.paths_match(got, r):
-                # win_paths: join leaves "x:..." without a leading separator; such f are not absolute
-                bad.append(("join_inside", dict(f=f, r=r, j=j, got=got)))
-            if not (p.win_paths and j[1:2] == ":") and not p.is_subpath(f, j, strict=True):
-                bad.append(("join_inside_strict", dict(f=f, r=r, j=j)))
-        # a path that only shares a name prefix with the folder is not inside it
-        ff = p.normalize_path_separators(f)
-        if ff and ff != p.sep and r and r[0] not in (p.sep, p.alt_sep) :
+            if not dl(p, j):
+                hit("join_inside"), hit("join_inside_exact")
+                for strict in (False, True):
+                    got = p.is_subpath(f, j, strict)
+                    if got != p.sep + rel:
+                        bad.append(("join_inside_exact", dict(f=f, r=r, j=j, got=got, strict=strict)))
+                    if not got or not p.paths_match(got, r) or not p.paths_match(got, r, True):
+                        bad.append(("join_inside", dict(f=f, r=r, j=j, got=got, strict=strict)))
+        # prefix_sibling: a path that only shares a name prefix with the folder is not inside it
+        ff = nps_of(p, f)
+        if ff and ff != p.sep and r and r[0] != p.sep and r[0] != (p.alt_sep or None):
             sib = ff + r
-            if p.normalize_path_separators(sib) != ff and p.is_subpath(f, sib):
-                bad.append(("prefix_sibling", dict(f=f, sib=sib, got=p.is_subpath(f, sib))))
-        # strict excludes equality only
+            hit("prefix_sibling")
+            for strict in (False, True):
+                if p.is_subpath(f, sib, strict):
+                    bad.append(("prefix_sibling", dict(f=f, sib=sib, got=p.is_subpath(f, sib, strict))))
+        # subpath_strict / subpath_nonstrict: strict excludes equality only
         g = p.is_subpath(f, r)
         gs = p.is_subpath(f, r, strict=True)
+        if gs:
+            hit("subpath_strict")
+        if g:
+            hit("subpath_nonstrict")
         if gs and gs != g:
-            bad.append(("strict_consistent", dict(f=f, t=r)))
+            bad.append(("subpath_strict", dict(f=f, t=r)))
+        if g and not gs and g != p.sep:
+            bad.append(("subpath_nonstrict", dict(f=f, t=r, g=g)))
+        if g == "":
+            bad.append(("subpath_rel_nonempty", dict(f=f, t=r)))
+        # subpath_components: inside = components of the folder followed by those of the relative part
+        if g and (p.case_sensitive or (per_char_lower(f) and per_char_lower(r))):
+            hit("subpath_components")
+            if lowk(p, pc(p, r)) != lowk(p, pc(p, f)) + lowk(p, pc(p, g)):
+                bad.append(("subpath_components", dict(f=f, t=r, g=g)))
     except Exception as e:
         bad.append(("total", dict(f=f, r=r, exc=repr(e))))
     return bad
@@ -163,47 +241,120 @@ def laws_ternary(p, path, f, t):
             out = p.replace_path(path, f, t)
         except ValueError:
             out = None
+        hit("replace_iff_sub")
         if bool(rel) != (out is not None):
             bad.append(("replace_iff_sub", dict(path=path, f=f, t=t)))
         if rel and out is not None:
-            exp = p.normalize_path_separators(t) + (rel if rel != p.sep else "")
+            exp = nps_of(p, t) + (rel if rel != p.sep else "")
+            hit("replace_moves_rel")
             if out != exp:
                 bad.append(("replace_moves_rel", dict(path=path, f=f, t=t, out=out, exp=exp)))
-            if abs_path(p, t) and rel != p.sep and p.normalize_path_separators(t) != p.sep:
+            if rel != p.sep and t:
                 back = p.is_subpath(t, out)
-                if back != rel:
+                hit("replace_lands_inside_equiv")
+                if nps_of(p, t) != p.sep:
+                    hit("replace_lands_inside")
+                # replace_lands_inside: exactly the same relative part unless the new folder is the root
+                if nps_of(p, t) != p.sep and back != rel:
                     bad.append(("replace_lands_inside", dict(path=path, f=f, t=t, out=out, back=back, rel=rel)))
+                # replace_lands_inside_equiv: always inside, with the same components
+                if not back or pc(p, back) != pc(p, rel):
+                    bad.append(("replace_lands_inside_equiv", dict(path=path, f=f, t=t, out=out, back=back, rel=rel)))
         # transitivity of paths_match
-        if p.paths_match(path, f) and p.paths_match(f, t) and not p.paths_match(path, t):
-            bad.append(("match_trans", dict(a=path, b=f, c=t)))
+        for disp in (False, True):
+            if p.paths_match(path, f, disp) and p.paths_match(f, t, disp):
+                hit("match_trans")
+            if p.paths_match(path, f, disp) and p.paths_match(f, t, disp) and not p.paths_match(path, t, disp):
+                bad.append(("match_trans", dict(a=path, b=f, c=t, disp=disp)))
     except Exception as e:
         bad.append(("total", dict(path=path, f=f, t=t, exc=repr(e))))
     return bad
 
 
 def laws_translate(provs, roots, path):
-    """round trip for everything inside root0 (path is on side 0); nothing for everything outside"""
+    """translate_outside / _inside / _lands_inside / _roundtrip, in both directions:
+    path is taken as a path of side `frm`, translated to side `to` and back."""
     from cloudsync.cs import CloudSync
     fake = types.SimpleNamespace(roots=roots, providers=provs)
     bad = []
-    try:
-        inside = provs[0].is_subpath(roots[0], path)
-        there = CloudSync.translate(fake, 1, path)
-        if not inside:
-            if there is not None:
-                bad.append(("translate_outside", dict(path=path, there=there)))
-        else:
+    for to in (1, 0):
+        frm = 1 - to
+        try:
+            inside = provs[frm].is_subpath(roots[frm], path)
+            there = CloudSync.translate(fake, to, path)
+            if not inside:
+                hit("translate_outside")
+                if there is not None:
+                    bad.append(("translate_outside", dict(path=path, to=to, there=there)))
+                continue
             if there is None:
-                bad.append(("translate_inside_some", dict(path=path)))
-            else:
-                if not provs[1].is_subpath(roots[1], there):
-                    bad.append(("translate_lands_inside", dict(path=path, there=there)))
-                back = CloudSync.translate(fake, 0, there)
-                if back is None or not provs[0].paths_match(back, path):
-                    bad.append(("translate_roundtrip", dict(path=path, there=there, back=back)))
-    except Exception as e:
-        bad.append(("total", dict(path=path, exc=repr(e))))
+                bad.append(("translate_inside", dict(path=path, to=to)))
+                continue
+            hit("translate_inside")
+            if there != provs[to].join(roots[to], inside):
+                bad.append(("translate_inside", dict(path=path, to=to, there=there)))
+            if abs_path(provs[to], roots[to]) and not dl(provs[to], there):
+                hit("translate_lands_inside")
+                if not provs[to].is_subpath(roots[to], there):
+                    bad.append(("translate_lands_inside", dict(path=path, to=to, there=there)))
+            # hypotheses of translate_roundtrip: same separators, absolute roots, not the drive-letter form
+            if (abs_path(provs[0], roots[0]) and abs_path(provs[1], roots[1]) and not dl(provs[to], there)
+                    and provs[0].sep == provs[1].sep and provs[0].alt_sep == provs[1].alt_sep):
+                back = CloudSync.translate(fake, frm, there)
+                hit("translate_roundtrip")
+                if back is None or not provs[frm].paths_match(back, path):
+                    bad.append(("translate_roundtrip", dict(path=path, to=to, there=there, back=back)))
+        except Exception as e:
+            bad.append(("total", dict(path=path, to=to, exc=repr(e))))
     return bad
+
+
+MALFORMED_ALPHABET = ["/", "a", "A", "\u03a3", "\u0130", "\u00df", ":"]     # Sigma, I-with-dot, sharp s
+
+
+def laws_beyond_fold(p, s, twin):
+    """The case laws WITHOUT the per-character-fold guard, for strings on which str.lower() is not a
+    per-character fold (outside fold_ok, so outside the theorems): the property still says "all paths"."""
+    bad = []
+    try:
+        for disp in (False, True):
+            n = p.normalize_path(s, disp)
+            if p.normalize_path(n, disp) != n:
+                bad.append(("normalize_idem", dict(s=s, disp=disp, n=n, nn=p.normalize_path(n, disp))))
+        if not p.paths_match(s, s.lower()):
+            bad.append(("match_case", dict(s=s, lower=s.lower())))
+        nd = p.normalize_path(s, True)
+        if p.basename(nd) != twin.basename(twin.normalize_path(s)):
+            bad.append(("display_keeps_leaf", dict(s=s, nd=nd)))
+        if p.normalize_path(nd) != p.normalize_path(s):
+            bad.append(("display_same_class", dict(s=s, nd=nd)))
+    except Exception as e:
+        bad.append(("total", dict(s=s, exc=repr(e))))
+    return bad
+
+
+def fold_sweep():
+    """fold_ok against str.lower() for every code point: per-character, idempotent, and exactly the
+    separators / ':' map to themselves.  -> (checked, exceptions, failures)"""
+    special = ["/", "\\", ":"]
+    exceptions, failures, checked = [], [], 0
+    for c in range(0x110000):
+        if 0xD800 <= c <= 0xDFFF:
+            continue
+        ch = chr(c)
+        lo = ch.lower()
+        checked += 1
+        if len(lo) != 1:
+            exceptions.append(c)        # not a per-character fold: outside the theorems' hypothesis
+            if any(x in lo for x in special):
+                failures.append((c, "multi-character lower() contains a separator"))
+            continue
+        if lo.lower() != lo:
+            failures.append((c, "lower not idempotent"))
+        for x in special:
+            if (lo == x) != (ch == x):
+                failures.append((c, "lower maps to/from %r" % x))
+    return checked, exceptions, failures
 
 
 def strings_upto(n, alphabet=ALPHABET):
@@ -232,13 +383,42 @@ def random_path(rng, p):
     return s[:60]
 
 
+def regenerate(ctx, stats):
+    """second tie: rewrite coq/theories/GenPath.v from the current source of the four helpers (fail-closed)"""
+    path = os.path.join(build.THEORIES, "GenPath.v")
+    cls = type(make_prov(True, False))
+    try:
+        text = translator.generate(cls)
+    except translator.Untranslatable as e:
+        stats["translator"] = "untranslatable"
+        ctx.violation("the source of a path helper left the translator's whitelist (%s); GenPath.v is stale, so the "
+                      "equalities C13_gen_* say nothing about the current source" % e,
+                      dict(kind="translator", error=str(e)), no_input=True,
+                      theorem="second tie: C13_gen_nps/C13_gen_split/C13_gen_is_subpath/C13_gen_replace_path")
+        return
+    old = open(path, encoding="utf-8").read() if os.path.exists(path) else None
+    if old != text:
+        with open(path, "w", encoding="utf-8") as f:
+            f.write(text)
+        stats["translator"] = "GenPath.v regenerated (source differs from the committed translation)"
+    else:
+        stats["translator"] = "GenPath.v unchanged"
+    stats["translated_functions"] = [f[0] for f in translator.FUNCS]
+
+
 def run(ctx):
     envfix.install()
+    pre = {}
+    regenerate(ctx, pre)
     g = ctx.coq_gate("PropC13")
+    LAW_HITS.clear()
     dist = fw.Distinct()
     stats = dict(unary=0, binary=0, ternary=0, translate=0, long=0, laws_checked=0, fold_alphabet_ok=0)
+    stats.update(pre)
     samples = []
-    if g is not None:
+    # when the proofs no longer check (e.g. the regenerated definitions changed) the search for a failing
+    # input still runs, against the last model executable that was built
+    if g is not None or os.path.exists(os.path.join(build.BIN, "path")):
         model = fw.ModelProc("path")
         quick = ctx.quick
         U, B, T = (4, 2, 1) if quick else (5, 3, 2)
@@ -254,6 +434,14 @@ def run(ctx):
                                   dict(kind="fold", char=c), no_input=True, theorem="fold_std hypothesis")
                 else:
                     stats["fold_alphabet_ok"] += 1
+        # fold_ok against str.lower() on every code point (the hypothesis of the case-insensitive theorems)
+        checked, multichar, fails = fold_sweep()
+        stats["fold_sweep_code_points"] = checked
+        stats["fold_sweep_not_per_character"] = ["U+%04X" % c for c in multichar]
+        stats["fold_sweep_failures"] = len(fails)
+        for c, why in fails[:5]:
+            ctx.violation("str.lower() breaks the fold hypothesis of the C13 theorems at U+%04X: %s" % (c, why),
+                          dict(kind="fold_ok", code_point=c, why=why), no_input=True, theorem="fold_ok hypothesis")
         mismatches = []
 
         def compare(reqs, impl_results, label):
@@ -261,6 +449,55 @@ def run(ctx):
             for rq, mo, io in zip(reqs, outs, impl_results):
                 if mo != io:
                     mismatches.append((label, rq, mo, io))
+
+        # ---- corpus first: boundary cases and the witnesses of the refuted statements, on every convention
+        corpus = {}
+        cdir = os.path.join(fw.VERIF, "corpus", "C13")
+        for fn in sorted(os.listdir(cdir)) if os.path.isdir(cdir) else []:
+            if fn.endswith(".json"):
+                for k, v in json.load(open(os.path.join(cdir, fn), encoding="utf-8")).items():
+                    if not k.startswith("_"):
+                        corpus.setdefault(k, []).extend(v)
+        stats["corpus"] = {k: len(v) for k, v in corpus.items()}
+
+        def report(found, cs, win, alt):
+            for law, d in found:
+                ctx.violation("law %s fails on the real helpers: %r" % (law, d),
+                              dict(kind="law", law=law, conv=[cs, win, alt], detail=d))
+
+        for (cs, win, alt) in confs:
+            p = make_prov(cs, win, alt)
+            twin = make_prov(True, win, alt)
+            im = Impl(p)
+            cv = conv_sx(cs, win, alt)
+            reqs, res = [], []
+            for a in corpus.get("u", []):
+                reqs += [[0, cv, S(a)], [1, cv, [S(a)]], [2, cv, S(a)], [3, cv, S(a), 0], [3, cv, S(a), 1]]
+                res += [im.nps(a), im.join([a]), im.split(a), im.norm(a, False), im.norm(a, True)]
+                report(laws_unary(p, a, twin), cs, win, alt)
+                dist.add(("cu", cs, win, alt, a), nontrivial=bool(a))
+            for (a, b) in corpus.get("b", []):
+                reqs += [[4, cv, S(a), S(b), 0], [4, cv, S(a), S(b), 1], [6, cv, S(a), S(b), 0], [6, cv, S(a), S(b), 1], [1, cv, [S(a), S(b)]]]
+                res += [im.sub(a, b, False), im.sub(a, b, True), im.match(a, b, False), im.match(a, b, True), im.join([a, b])]
+                report(laws_binary(p, a, b), cs, win, alt)
+                dist.add(("cb", cs, win, alt, a, b), nontrivial=bool(a) and bool(b))
+            for (a, b, c) in corpus.get("t", []):
+                reqs.append([5, cv, S(a), S(b), S(c)])
+                res.append(im.rep(a, b, c))
+                report(laws_ternary(p, a, b, c), cs, win, alt)
+                dist.add(("ct", cs, win, alt, a, b, c), nontrivial=bool(a) and bool(b))
+            if alt:
+                p1 = make_prov(not cs, win, alt)
+                for (r0, r1, path) in corpus.get("tr", []):
+                    for side in (0, 1):
+                        reqs.append([7, cv, conv_sx(not cs, win, alt), S(r0), S(r1), side, S(path)])
+                        res.append(translate_impl((p, p1), (r0, r1), side, path))
+                    for law, d in laws_translate((p, p1), (r0, r1), path):
+                        ctx.violation("law %s fails on the real code: %r" % (law, d),
+                                      dict(kind="law", law=law, detail=dict(d, roots=[r0, r1], cs=[cs, not cs], win=[win, win])))
+                    dist.add(("ctr", cs, win, r0, r1, path), nontrivial=bool(path))
+            compare(reqs, res, "corpus")
+            stats["laws_checked"] += len(reqs)
 
         for (cs, win, alt) in confs:
             p = make_prov(cs, win, alt)
@@ -281,9 +518,14 @@ def run(ctx):
             compare(reqs, res, "unary")
             # ---- binary, exhaustive
             reqs, res = [], []
-            small = list(strings_upto(B))
-            for a in small:
-                for b in small:
+            small = list(strings_upto(2))
+            pairs = list(itertools.product(small, repeat=2))
+            if not quick:     # all pairs of length <= 3 over the core sub-alphabet as well
+                core = list(strings_upto(B, CORE))
+                seen = set(pairs)
+                pairs += [pr for pr in itertools.product(core, repeat=2) if pr not in seen]
+            for (a, b) in pairs:
+                if True:
                     reqs += [[4, cv, S(a), S(b), 0], [4, cv, S(a), S(b), 1], [6, cv, S(a), S(b), 0],
                              [6, cv, S(a), S(b), 1], [1, cv, [S(a), S(b)]]]
                     res += [im.sub(a, b, False), im.sub(a, b, True), im.match(a, b, False),
@@ -297,7 +539,7 @@ def run(ctx):
             compare(reqs, res, "binary")
             # ---- ternary, exhaustive
             reqs, res = [], []
-            tiny = list(strings_upto(T))
+            tiny = list(strings_upto(1)) if quick else list(strings_upto(T, CORE)) + ["b", " ", "\u00e9", "\u00c9"]
             # add structured triples so that replace_path succeeds often
             rng = ctx.sub_rng("tern%s%s%s" % (cs, win, alt))
             triples = list(itertools.product(tiny, repeat=3))
@@ -334,27 +576,43 @@ def run(ctx):
                     samples.append(dict(conv=dict(cs=cs, win=win, alt=alt), path=s, other=s2,
                                         normalize=p.normalize_path(s), is_subpath=repr(p.is_subpath(s, s2))))
             compare(reqs, res, "long")
+        # ---- malformed stream: strings whose lower() is not a per-character fold (real code only; deterministic)
+        stats["beyond_fold"] = 0
+        stats["beyond_fold_failures"] = 0
+        for win in (False, True):
+            p = make_prov(False, win)
+            twin = make_prov(True, win)
+            for s in strings_upto(3, MALFORMED_ALPHABET):
+                if per_char_lower(s):
+                    continue
+                stats["beyond_fold"] += 1
+                dist.add(("m", win, s))
+                for law, d in laws_beyond_fold(p, s, twin):
+                    stats["beyond_fold_failures"] += 1
+                    ctx.violation("law %s fails on the real helpers (string outside the per-character-fold hypothesis): %r" % (law, d),
+                                  dict(kind="law", law=law, conv=[False, win, "\\"], detail=d))
         # ---- translate: pairs of conventions and roots
         rng = ctx.sub_rng("translate")
         roots_pool = [("/local", "/remote"), ("/", "/r"), ("/a", "/"), ("/A/b", "/x y"), ("/a/", "\\r\\"), ("/a", "/a")]
-        for (cs0, cs1) in [(True, True), (True, False), (False, True), (False, False)]:
-            provs = (make_prov(cs0, False), make_prov(cs1, False))
-            cvs = (conv_sx(cs0, False), conv_sx(cs1, False))
+        for (cs0, cs1, win0, win1) in [(True, True, False, False), (True, False, False, False), (False, True, False, False),
+                                       (False, False, False, False), (False, False, True, True), (True, False, False, True)]:
+            provs = (make_prov(cs0, win0), make_prov(cs1, win1))
+            cvs = (conv_sx(cs0, win0), conv_sx(cs1, win1))
             reqs, res = [], []
             for roots in roots_pool:
                 cands = list(strings_upto(3 if quick else 4, ["/", "a", "A", "b", "\\"]))
                 for _ in range(300 if quick else 3000):
                     side_root = roots[rng.randint(0, 1)]
-                    cands.append(side_root + rng.choice(["", "/", "x", "/x", "/x/Y", "2/x", "/\u00e9", "//z/"]))
+                    cands.append(side_root + rng.choice(["", "/", "x", "/x", "/x/Y", "2/x", "/\u00e9", "//z/", "/c:x", "/C:\\y/z"]))
                     cands.append(random_path(rng, provs[0]))
                 for path in cands:
                     for side in (0, 1):
                         reqs.append([7, cvs[0], cvs[1], S(roots[0]), S(roots[1]), side, S(path)])
                         res.append(translate_impl(provs, roots, side, path))
                     stats["translate"] += 1
-                    dist.add(("tr", cs0, cs1, roots, path), nontrivial=bool(path))
+                    dist.add(("tr", cs0, cs1, win0, win1, roots, path), nontrivial=bool(path))
                     for law, d in laws_translate(provs, roots, path):
-                        d = dict(d, roots=roots, cs=[cs0, cs1])
+                        d = dict(d, roots=roots, cs=[cs0, cs1], win=[win0, win1])
                         ctx.violation("law %s fails on the real code: %r" % (law, d),
                                       dict(kind="law", law=law, detail=d))
                     stats["laws_checked"] += 1
@@ -369,23 +627,31 @@ def run(ctx):
                           no_input=not any(v for v in ctx.violations if not v[2]),
                           theorem="correspondence PathModel.run vs cloudsync.provider helpers")
         stats["mismatches"] = len(mismatches)
+        stats["law_hypotheses_held"] = dict(sorted(LAW_HITS.items()))
     cov = ctx.coverage
     cov["evaluations"] = dist.total
     cov["distinct_nontrivial"] = dist.nontrivial
     cov["rule"] = ("exhaustive strings over the 10-letter alphabet {/ \\ a A b . space : e-acute E-acute}: unary helpers up to "
-                   "length %s, pairs up to %s, triples up to %s (+ structured triples), random long paths, translate over 6 root "
-                   "pairs x 4 case combinations; 5 conventions (case x win_paths, and one without alt_sep); a case is "
+                   "length %s, pairs up to length 2 (thorough: also up to %s over the 6-letter core {/ \\ a A : .}), triples up to "
+                   "length 1 (thorough: up to %s over the core) + structured triples, random long paths, translate over 6 root "
+                   "pairs x 6 case/win_paths combinations; 5 conventions (case x win_paths, and one without alt_sep); a case is "
                    "non-trivial when its strings are non-empty; distinct = distinct (convention, strings) tuples"
-                   % ((4, 2, 1) if ctx.quick else (5, 3, 2)))
+                   % (4 if ctx.quick else 5, 3, 2))
     cov["exhaustive"] = False
     cov["samples"] = samples
     cov["streams"] = stats
     cov["traces_validated_against_impl"] = stats.get("model_calls", 0)
     tb = ["Coq 8.16.1 kernel (coqc); vm_compute not needed by the C13 theorems; no native_compute",
           "axioms per theorem as printed by Print Assumptions: " + (", ".join(cov.get("axioms_used", [])) or "none (closed under the global context)"),
-          "Section hypotheses of the theorems about the per-character case fold (idempotent, fixes and never produces a separator); "
-          "checked against str.lower() on every character the streams use",
+          "hypothesis fold_ok of the case-insensitive theorems (per-character case fold: idempotent; exactly the separator, the alt "
+          "separator and ':' map to themselves); checked against str.lower() for every Unicode code point in every run "
+          "(exceptions, i.e. characters whose lower() is not one character, are listed in streams.fold_sweep_not_per_character); "
+          "the executable model's fold_std is proved to satisfy fold_ok (fold_std_ok) and compared with str.lower() on the stream alphabet",
           "extraction: ExtrOcamlBasic only (Extract Inductive bool/option/unit/prod/list/sumbool/sumor); OCaml 4.13.1; coq/ocaml/driver.ml",
           "correspondence harness harness/checks/c13.py (generators, canonicalisation); CPython str semantics",
-          "modelled, not verified: str.lower() beyond per-character folds (U+0130, final sigma), Unicode normalisation forms; nested list arguments of join()"]
+          "second tie: harness/translator.py (fail-closed ast -> Gallina for normalize_path_separators, split, is_subpath, replace_path) and "
+          "the Gallina readings of CPython primitives in GenPrims.v/Str.v (slices, len, rfind, replace, rstrip, startswith); cross-checked by "
+          "the proofs gen_* = hand model together with the correspondence run of the hand model",
+          "modelled, not verified: str.lower() beyond per-character folds (U+0130, context-dependent final sigma), Unicode normalisation forms; "
+          "nested list arguments of join(); join() of more than the argument shapes used by the theorems is covered by pc_join only up to components"]
     return ctx.finish(tb)
